@@ -131,6 +131,13 @@ def run_case(case):
             obs = (n, {k: norm_param(x) for k, x in pp.items()}, v)
         except ValueError:
             obs = ("rejected",)
+        # the same through the line's own serialised (folded) form: fold + unfold must not change what is split
+        try:
+            again = Contentline.from_ical(line.to_ical().decode("utf-8"))
+            if str(again) != text:
+                fails.append(fail("join:fold-unfold-changes-the-line", case, text, str(again)))
+        except Exception as e:  # noqa: BLE001
+            fails.append(fail("join:fold-unfold-raises", case, text, f"{type(e).__name__}: {e}"))
         if obs == ("rejected",):
             if unrepresentable:
                 outcomes.append("split-rejected-unrepresentable")
